@@ -4,6 +4,8 @@
 import JoinModel.Props.Common
 import JoinModel.SpecTables
 import JoinModel.AsyncSpec
+import JoinModel.Lemmas.CapsOrder
+import JoinModel.Print
 namespace JoinModel.Props.C11
 open JoinModel JoinModel.Props
 
@@ -91,6 +93,38 @@ theorem async_captures_before_chains_every_schedule (c : SpecCfg) (pend : Pend) 
     rcases List.mem_append.mp he with he | he
     · simp [(h1 e he).1]
     · exact ha e he
+
+/-- **The hoisted definitions of every generated step are written — hence evaluated — in branch order, and within a
+    branch in the order of the actions' positions in the step, then of the operands** (`lex3` on (branch, position, operand
+    index), all ascending, for positions and indices of any size: position 10 comes after position 9, not after position 1).
+    For every program, macro kind and step. -/
+theorem generated_defs_in_position_order (p : Input) (kind : Kind) (c : Ctx) (hs : SupportedBase p)
+    (hc : mkCtx p kind = .ok c) (k : Nat) (s : StepCode) (h : genStep c k = .ok s) :
+    (s.defs.map fun d => (d.b, d.e, d.i)).Pairwise lex3 := genStep_defs_sorted hs hc k s h
+
+/-- the printer writes the definitions of a step in the order of `defs`, after the thread builders and in front of the step's
+    join expression `let __sr{k} = …` -/
+theorem defs_printed_in_order (s : StepCode) :
+    ((s.tbs.flatMap fun (b, arg) => [kw "let", (Var.j b).tok, pu '=', Var.tb.tok, paren [usizeLit arg], pu ';']) ++
+      s.defs.flatMap printCapDef ++ [kw "let", (Var.sr s.k).tok, pu '=']) <+: printStep s := by
+  unfold printStep
+  simp only [List.append_assoc]
+  refine (List.prefix_append_right_inj _).mpr ((List.prefix_append_right_inj _).mpr ?_)
+  exact List.prefix_append _ _
+
+/-- Non-vacuity of the order theorem: a step of one branch with block operands at positions 1, 2 and 10 (the regression shape
+    of seeded change C11-l), next to a second branch: the keys come out as (0,1,0), (0,2,0), (0,10,0), (1,0,0). -/
+example :
+    let blk : Operand := ⟨.block, [brace [.ident "x"]]⟩
+    let pl : Operand := ⟨.expr, [.ident "f"]⟩
+    let ini : Member := ⟨.initial, false, .none, [pl]⟩
+    let mb : Member := ⟨.map, false, .none, [blk]⟩
+    let mp : Member := ⟨.map, false, .none, [pl]⟩
+    let p : Input := { branches := [⟨none, [ini, mb, mb, mp, mp, mp, mp, mp, mp, mp, mb]⟩, ⟨none, [⟨.initial, false, .none, [blk]⟩]⟩] }
+    (match mkCtx p ⟨false, false, false⟩ with
+      | .ok c => (match genStep c 0 with | .ok s => s.defs.map (fun d => (d.b, d.e, d.i)) | .error _ => [])
+      | .error _ => []) = [(0, 1, 0), (0, 2, 0), (0, 10, 0), (1, 0, 0)] := by
+  decide +kernel
 
 /-- Non-vacuity: `fold` with two block operands hoists both (positions 0 and 1); with one block and one plain operand only
     the block; `map` with a block operand hoists it, `..` (dot) hoists nothing. -/
